@@ -69,7 +69,12 @@ def h_structure(ctx, cls, nopt, nmem, nsym):
     ctx.check("write-then-read returns a structurally equal model (classes, nesting, list order, values)", same_model(ctx, back, inst))
 
 
-HARNESSES = dict(structure=h_structure, wire=wire.h_wire)
+from harness import c09 as _c09
+from harness import c10 as _c10
+
+HARNESSES = dict(structure=h_structure, wire=wire.h_wire, dt_write=_c09.h_write, dt_read=_c09.h_read,
+                 string_value=_c10.h_string_value, string_text=_c10.h_string_text, string_tokens=_c10.h_string_tokens,
+                 dec_value=_c10.h_dec_value, int_value=_c10.h_int_value, oneof=_c10.h_oneof, bool=_c10.h_bool)
 
 META = dict(
     bounds=dict(structure="per class: <= 3 optional children of symbolic presence, <= 3 list members of symbolic type/order, <= 2 symbolic leaf values",
@@ -107,4 +112,21 @@ def instances(tier, seed):
         mk(f"structure[{n}]", "structure", dict(cls=n, nopt=2 if not full else 3, nmem=2 if not full else 3, nsym=1 if not full else 2),
            max_paths=4000 if not full else 40000)
     out += wire.instances_wire(tier, seed, mk)
+    # value lemma for date-times (the structure lemma keeps them concrete): written text denotes the instant for every
+    # instant x offset, and the written shapes read back to the instant they denote (C09's harnesses)
+    # value lemma for the other types (C10's harnesses, a compact parameter set): write - escape as on the wire - read
+    for n in (1, 2, 3, 4):
+        mk(f"value:string_value[String,3,{n}]", "string_value", dict(cls="String", length=3, n=n))
+    for n in (4, 5, 6):
+        mk(f"value:string_text[String,3,{n}]", "string_text", dict(cls="String", length=3, n=n), max_paths=100000, wall_s=600)
+    mk("value:string_tokens[String,6,2]", "string_tokens", dict(cls="String", length=6, ntok=2))
+    for sc, e in ((None, -2), (None, 0), (None, 2), (2, -2)):
+        mk(f"value:dec_value[{sc},{e}]", "dec_value", dict(scale=sc, exp=e))
+    mk("value:int_value[3]", "int_value", dict(length=3))
+    mk("value:oneof", "oneof", dict(toks="five", n=2))
+    mk("value:bool", "bool", {})
+    for kind in ("dt", "time"):
+        mk(f"value:dt_write[{kind}]", "dt_write", dict(kind=kind, named=None), timeout_ms=30000, wall_s=600)
+        for off in (["+", 1, False, None], ["-", 2, True, None], ["-", 1, True, None], ["+", 2, True, None]):
+            mk(f"value:dt_read[{kind},{off}]", "dt_read", dict(kind=kind, has_time=True, has_ms=True, off=off), timeout_ms=20000)
     return out
